@@ -859,3 +859,56 @@ func ToCFF(src *sfnt.Font, cidKeyed bool) *sfnt.Font {
 
 // RoundTo16 rounds x to a multiple of 1/65536.
 func RoundTo16(x float64) float64 { return math.Round(x*65536) / 65536 }
+
+// GenHugeFont builds a TrueType font with 55 300..65 535 glyphs (the upper
+// end of the glyph-id range, beyond the UTF-16 surrogate values 0xD800..0xDFFF
+// and up to 0xFFFE): the first glyphs are generated as usual, the rest are
+// blank with patterned widths, so that the tape stays short.  The character
+// map refers to a few dozen glyphs spread over the whole range.
+func GenHugeFont(t *tape.Tape) *sfnt.Font {
+	n := t.Range(55300, 65535)
+	if t.Chance(1, 3) {
+		n = 65535
+	}
+	o := GenTrueType(t, t.Range(2, 12))
+	o.Names = nil
+	step := t.Range(1, 13)
+	for gid := len(o.Glyphs); gid < n; gid++ {
+		o.Glyphs = append(o.Glyphs, nil)
+		o.Widths = append(o.Widths, funit.Int16((gid*step)%1500))
+	}
+	f := &sfnt.Font{Outlines: o}
+	GenMeta(t, f)
+	if t.Chance(5, 6) {
+		c := cmap.Format4{}
+		for i := 0; i < 40; i++ {
+			gid := glyph.ID(1 + t.Draw(n-1))
+			if t.Chance(1, 2) {
+				gid = glyph.ID(0xD7F0 + t.Draw(0x820)) // around the surrogate range
+				if int(gid) >= n {
+					gid = glyph.ID(n - 1)
+				}
+			}
+			c[uint16(0x41+i)] = gid
+		}
+		f.InstallCMap(c)
+	}
+	return f
+}
+
+// HighGlyphs returns glyph ids near the values where 16-bit quantities get
+// reinterpreted (all below n); half of the time only the UTF-16 surrogate
+// values, otherwise also the sign bit and the top of the range.
+func HighGlyphs(t *tape.Tape, n int) []glyph.ID {
+	cand := []int{0xD800, 0xD801, 0xDBFF, 0xDC00, 0xDFFF}
+	if t.Chance(1, 2) {
+		cand = append(cand, 0xD7FF, 0xE000, 0x8000, 0x7FFF, 0xFFFE, 0xFFFD, 0xFEFF, n-1)
+	}
+	var res []glyph.ID
+	for _, g := range cand {
+		if g < n {
+			res = append(res, glyph.ID(g))
+		}
+	}
+	return res
+}
